@@ -176,9 +176,9 @@ func valueFromBuf(r *bufio.Reader) (value, error) {
 		}
 		k, i := uvarintFromBytes(p)
 		r.Discard(i)
-		p, _ = r.Peek(int(k))
-		_, err = r.Discard(len(p))
-		return string(p), err
+		s := make([]byte, k)
+		_, err = io.ReadFull(r, s)
+		return string(s), err
 
 	case typeBOOL:
 		_, err = io.ReadFull(r, b[:1])
